@@ -70,7 +70,16 @@ C15Step(m, o) ==
                     \/ c >= maxtx,
                  "entry-left-the-backlog-before-max_transmissions-without-being-superseded")
           \* everything on the wire comes from the backlog
-          \cup V(\A x \in wire : x \in C0 \/ x \in C1 \/ Carried(o.out, x) = maxtx
+          \* (accepted within the call and exhausted: one budget of max_transmissions per acceptance; an update
+          \*  can be accepted more than once in a call - Down(self), another identity of the own address and
+          \*  Down(self) again in one datagram: renewal queues Down(old), the second supersedes it, the third
+          \*  supersedes that one - so the bound is per mention of the identity in the input, plus the Down of
+          \*  the own former identity queued by change_identity / leave_cluster)
+          \cup V(\A x \in wire : x \in C0 \/ x \in C1
+                                   \/ (LET U == UpdatesIn(o)
+                                           occ == Cardinality({i \in DOMAIN U : U[i].id = x.id})
+                                                  + (IF x.id = o.pre.id THEN 1 ELSE 0)
+                                       IN (Carried(o.out, x) >= maxtx /\ Carried(o.out, x) <= maxtx * Max(occ, 1)))
                                    \* accepted, sent, then superseded by a fresher update within the same call
                                    \/ (\E y \in (C1 \cup wire) : Addr(y.id) = Addr(x.id) /\ y # x),
                  "update-on-the-wire-that-was-not-in-the-backlog")
